@@ -1243,6 +1243,13 @@ func (mgr *Manager) UpdateTag(name string, operation UpdateTagOperation) error {
 						return fmt.Errorf("tag %q references %q, reference cycles are not allowed", rtn, name)
 					}
 				}
+				if len(tag.converters) != 0 {
+					// the same restriction as when attaching a converter, the
+					// tag would lose its converters at the next start otherwise
+					if err := newTag.converterAttachable(name); err != nil {
+						return err
+					}
+				}
 				newTag.color = tag.color
 				newTag.converters = tag.converters
 				newTag.referencedBy = tag.referencedBy
